@@ -262,6 +262,14 @@ func PoolPut(p *sync.Pool, v any, site uint32) {
 	s.mu.Unlock()
 }
 
+// ResetPools empties every simulated pool (a brand-new process, as far as
+// pooled objects are concerned).
+func (s *Sim) ResetPools() {
+	s.mu.Lock()
+	s.pools = map[*sync.Pool][]any{}
+	s.mu.Unlock()
+}
+
 // ---- seeded map iteration order -----------------------------------------------------
 
 // MapKeys returns the keys of m sorted and then permuted from the tape
